@@ -12,8 +12,8 @@
    - a reference x ~ x' is allowed when the first pair of Gamma that mentions x on the left, or x' on the
      right, mentions both (`ctx_var`): both refer to the same binder, no capture on either side.  When
      no pair mentions either, both refer to globals and x' = g x for the renaming g of global names.
-   - `x.field`: the code consults the namespace table of the file BEFORE the scope stack (DESIGN
-     section 7 row 20).  So either the chain is known to be a namespace path (`sure_ns`) and is renamed
+   - `x.field`: unless the flag `access_local_first` says otherwise, the code consults the namespace table
+     of the file BEFORE the scope stack (DESIGN section 7 row 20).  So either the chain is known to be a namespace path (`sure_ns`) and is renamed
      by g, or the root names of both chains are known not to be namespace names of that file
      (`is_ns fid x = false`) or the prefix is not a chain of names at all, or (undetermined) the chain is
      renamed by g AND consistently as an expression.
@@ -85,17 +85,29 @@ Inductive alpha_ns : passign -> passign -> Prop :=
 | ans_read i i' sp : id_glob i i' -> alpha_ns (ARead i sp) (ARead i' sp)
 | ans_access a a' i i' sp : alpha_ns a a' -> id_glob i i' -> alpha_ns (AAccess a i sp) (AAccess a' i' sp).
 
-(* the innermost name of a chain of accesses, if the assignable is such a chain *)
-Fixpoint chain_root (a : passign) : option string :=
-  match a with
-  | ARead i _ => Some (i_name i)
-  | AAccess a' _ _ => chain_root a'
-  | _ => None
-  end.
-
 (* "certainly not a namespace path when looked at from file fid" *)
 Definition not_ns (fid : N) (a : passign) : Prop :=
   match chain_root a with Some x => is_ns fid x = false | None => True end.
+
+(* is the name bound by the context, on the left / on the right *)
+Fixpoint ctx_has_l (G : ctx) (x : string) : bool :=
+  match G with [] => false | (a, _) :: G' => String.eqb a x || ctx_has_l G' x end.
+Fixpoint ctx_has_r (G : ctx) (x : string) : bool :=
+  match G with [] => false | (_, a') :: G' => String.eqb a' x || ctx_has_r G' x end.
+
+(* the roots of both chains are declarations in scope / neither is *)
+Definition roots_local (G : ctx) (a a' : passign) : Prop :=
+  match chain_root a, chain_root a' with
+  | Some x, Some x' => ctx_has_l G x = true /\ ctx_has_r G x' = true
+  | _, _ => False
+  end.
+Definition roots_free (G : ctx) (a a' : passign) : Prop :=
+  match chain_root a with Some x => ctx_has_l G x = false | None => True end
+  /\ match chain_root a' with Some x' => ctx_has_r G x' = false | None => True end.
+(* the namespace table is consulted for `a.x`: always when the code does not look at the scope stack
+   first, else only when the root of the chain is not a declaration in scope *)
+Definition ns_applies (G : ctx) (a a' : passign) : Prop :=
+  access_local_first fl = false \/ roots_free G a a'.
 
 Definition binexp (e : pexpr) : option (pexpr * pexpr * (pexpr -> pexpr -> pexpr)) :=
   match e with
@@ -155,17 +167,24 @@ with alpha_a : ctx -> passign -> passign -> ctx -> Prop :=
     alpha_a G (AArrowCall x f args sp) (AArrowCall x' f' args' sp) G3
 (* `n.x`, `a.b.x`: the prefix is known to be a namespace path; every name is a global name *)
 | aa_access_qual G a a' i i' sp :
+    ns_applies G a a' ->
     sure_ns (sp_file sp) a = true -> alpha_ns a a' -> id_glob i i' ->
     alpha_a G (AAccess a i sp) (AAccess a' i' sp) G
 (* `a.x`, undetermined: the prefix is renamed as a namespace path would be, and also as an expression
    (the code decides at run time which of the two it is: it is the same decision on both sides) *)
 | aa_access_ns G a a' i i' sp :
+    ns_applies G a a' ->
     alpha_ns a a' -> alpha_a G a a' G -> i_name i = i_name i' -> i_span i = i_span i' ->
     g (i_name i) = i_name i' ->
     alpha_a G (AAccess a i sp) (AAccess a' i' sp) G
 (* `a.field`: neither prefix can be a namespace path *)
 | aa_access_field G G1 a a' i sp :
+    ns_applies G a a' ->
     not_ns (sp_file sp) a -> not_ns (sp_file sp) a' -> alpha_a G a a' G1 ->
+    alpha_a G (AAccess a i sp) (AAccess a' i sp) G1
+(* `x.field` where x is a declaration in scope and the code looks at the scope stack first *)
+| aa_access_local G G1 a a' i sp :
+    access_local_first fl = true -> roots_local G a a' -> alpha_a G a a' G1 ->
     alpha_a G (AAccess a i sp) (AAccess a' i sp) G1
 | aa_index G G1 G2 a a' idx idx' sp :
     alpha_a G a a' G1 -> alpha_e G1 idx idx' G2 -> alpha_a G (AIndex a idx sp) (AIndex a' idx' sp) G2
